@@ -325,7 +325,7 @@ def table_ref(depth):
 
 
 JOINS = ['JOIN', 'LEFT JOIN', 'INNER JOIN', 'LEFT OUTER JOIN', 'CROSS JOIN', 'RIGHT JOIN', 'FULL OUTER JOIN', 'NATURAL JOIN']
-SETOPS = ['UNION', 'UNION ALL', 'EXCEPT']
+SETOPS = ['UNION', 'UNION ALL', 'EXCEPT', 'EXCEPT ALL', 'EXCEPT DISTINCT', 'UNION DISTINCT']
 
 
 @functools.lru_cache(maxsize=None)
@@ -496,10 +496,13 @@ def case_heavy_select():
     call = st.one_of(st.tuples(fn, case, e).map(lambda t: func_call(t[0], [t[1], t[2]])),
                      st.tuples(fn, e, c).map(lambda t: func_call(t[0], [t[1], W('paren', paren(t[2]))])),
                      st.tuples(fn, e, fn, e, c).map(lambda t: func_call(t[0], [t[1], func_call(t[2], [t[3], W('paren', paren(t[4]))]), [L('num', '0')]])))
-    signed = st.one_of(st.tuples(st.sampled_from(['-', '+']), column_ref).map(lambda t: seq(L('op', t[0]), t[1])),
+    signed = st.one_of(st.tuples(st.sampled_from(['-', '+']), column_ref).map(lambda t: seq(L('op', t[0]), tight_first(t[1]))),
                        st.tuples(st.sampled_from(['-', '+']), e).map(lambda t: seq(L('op', t[0]), W('paren', paren(t[1])))),
                        st.tuples(column_ref, st.sampled_from(['*', '+', '/']), st.sampled_from(['-', '+']), column_ref).map(
-                           lambda t: seq(t[0], opl(t[1]), L('op', t[2]), t[3])))
+                           lambda t: seq(t[0], opl(t[1]), L('op', t[2]), t[3])),
+                       # a sign written directly behind a comparison or '*' (a=-b, x>=+y, a*-b): two tokens for the lexer
+                       st.tuples(column_ref, st.sampled_from(['=', '>=', '<>', '<', '*']), st.sampled_from(['-', '+']), column_ref).map(
+                           lambda t: seq(t[0], L('cmp', t[1], True) if t[1] != '*' else opl('*'), L('op', t[2], True, after_cmp=True), tight_first(t[3]))))
     item = st.one_of(st.tuples(case, alias).map(lambda t: with_alias(*t)), st.tuples(case, alias).map(lambda t: with_alias(*t)), e, call, call, signed)
 
     def mk(items, frm, where, order):
@@ -584,6 +587,8 @@ def can_tight(prev, cur):
         if prev[1][-1] in '\n\r':
             return True
         return cur[0] in ('lp', 'rp', 'punct', 'name', 'num', 'kw', 'str', 'qname', 'type')
+    if cur[3].get('after_cmp') and prev[0] != 'comment' and prev[1] in ('=', '>=', '<>', '<', '*'):
+        return True
     if cur[0] == 'comment':
         if cur[1][0] == '#':          # '# ' only starts a comment when the '#' cannot continue a word
             return False
